@@ -2,7 +2,6 @@ package main
 
 import (
 	"fmt"
-	"go/ast"
 	"go/token"
 	"go/types"
 	"os"
@@ -234,18 +233,6 @@ func (p *Prog) Pos(pos token.Pos) string {
 	f := strings.TrimPrefix(q.Filename, p.Dir+"/")
 	return fmt.Sprintf("%s:%d", f, q.Line)
 }
-
-// FuncDeclOf returns the syntax of a source function.
-func FuncDeclOf(f *ssa.Function) *ast.FuncDecl {
-	if f == nil {
-		return nil
-	}
-	d, _ := f.Syntax().(*ast.FuncDecl)
-	return d
-}
-
-// Pkg returns the go/packages package for a path (repo or dependency).
-func (p *Prog) Pkg(path string) *packages.Package { return p.All[path] }
 
 // FuncName is a short stable name: "pkgname.Recv.Method" / "pkgname.func" / "...$1" for closures.
 func FuncName(f *ssa.Function) string {
